@@ -149,6 +149,16 @@ func run(t *testing.T, typ uint16) {
 			ft := tokens.Token{TokenType: tok.TokenType, Nonce: cat[:a], Context: cat[a:b], KeyID: cat[b:], Authenticator: tok.Authenticator}
 			check(t, s, v, ft, "boundary-moved", honest)
 		}
+		// the boundary between key id and authenticator moved (both lengths change together, the concatenation stays the honest token)
+		whole := honest[2:]
+		for _, kidLen := range []int{31, 33, 30, 34, 0, 32 + len(tok.Authenticator)} {
+			cutAt := 64 + kidLen
+			if cutAt > len(whole) {
+				cutAt = len(whole)
+			}
+			ft := tokens.Token{TokenType: tok.TokenType, Nonce: whole[:32], Context: whole[32:64], KeyID: whole[64:cutAt], Authenticator: whole[cutAt:]}
+			check(t, s, v, ft, "keyid-authenticator-boundary-moved", honest)
+		}
 		for _, n := range []int{0, 1, len(tok.Authenticator) - 1} {
 			ft := tok
 			ft.Authenticator = tok.Authenticator[:n]
